@@ -99,7 +99,7 @@ SPECS["Question::deserialise"] = {"props": ["C03", "C04"], "contract": """    re
         r is Err ==> err_id(r->Err_0) == Some(id), // [C03:error_carries_id]
         r is Ok <==> question_at(old(buffer).octets@, old(buffer).position as int) is Some, // [C03:accepts_exactly_the_well_formed_questions]
         r is Ok ==> question_is(r->Ok_0, old(buffer).octets@, old(buffer).position as int) && final(buffer).position == question_at(old(buffer).octets@, old(buffer).position as int)->Some_0, // [C03:question_read_as_an_independent_decoder_does]"""}
-SPECS["ResourceRecord::deserialise"] = {"props": ["C03", "C04"], "rewrites": [("R6", r6_inline_closure)], "attrs": "#[verifier::rlimit(1200)] // 20 match arms with about 40 error exits",
+SPECS["ResourceRecord::deserialise"] = {"props": ["C03", "C04"], "rewrites": [("R6", r6_inline_closure)], "attrs": "#[verifier::rlimit(3000)] #[verifier::spinoff_prover] // 20 match arms with about 40 error exits: the heaviest query of the whole suite",
     "anchors": [{"after": "let rdata_start = buffer.position;", "proof": """let ghost b__ = buffer.octets@; let ghost p0__ = old(buffer).position as int; let ghost rdl__ = rdlength as int;
 proof {
     assert(rr_prefix_at(b__, p0__) == Some(rdata_start as int));
@@ -126,23 +126,30 @@ SPECS["Message::deserialise"] = {"props": ["C03", "C04"], "contract": """    req
         r is Ok ==> r->Ok_0.header == header_unpack(be16(old(buffer).octets@[0], old(buffer).octets@[1]), old(buffer).octets@[2], old(buffer).octets@[3]), // [C03,C04:header_flags_read_as_rfc1035]
         r is Err && old(buffer).octets@.len() >= 2 ==> err_id(r->Err_0) == Some(be16(old(buffer).octets@[0], old(buffer).octets@[1])), // [C03:error_carries_id]
         r is Err && old(buffer).octets@.len() < 2 ==> err_id(r->Err_0) is None,
-        r is Ok <==> msg_end(old(buffer).octets@) is Some, // [C03:accepts_exactly_the_well_formed_messages]""",
+        r is Ok <==> msg_end(old(buffer).octets@) is Some, // [C03:accepts_exactly_the_well_formed_messages]
+        r is Ok ==> msg_is(r->Ok_0, old(buffer).octets@), // [C03,C04:every_question_and_record_is_the_one_at_its_place_in_its_section]""",
     "loops": {str(k): {"kw": "for", "iter_name": "it__", "spec": f"""            invariant buffer.wf(), buffer.octets == old(buffer).octets, buffer.position >= old(buffer).position,
                 {v}@.len() == it__.index@, buffer.octets@.len() >= 12, header.id == be16(buffer.octets@[0], buffer.octets@[1]),
                 it__.index@ <= {c}, // the part of the message still to be read decides whether the whole is well-formed
-                msg_end(buffer.octets@) == {m},"""}
-              for k, (v, c, m) in enumerate((
-                  ("questions", "qdcount", "then_rrs(buffer.octets@, then_rrs(buffer.octets@, then_rrs(buffer.octets@, questions_end(buffer.octets@, buffer.position as int, (qdcount - it__.index@) as nat), ancount as nat), nscount as nat), arcount as nat)"),
-                  ("answers", "ancount", "then_rrs(buffer.octets@, then_rrs(buffer.octets@, rrs_end(buffer.octets@, buffer.position as int, (ancount - it__.index@) as nat), nscount as nat), arcount as nat)"),
-                  ("authority", "nscount", "then_rrs(buffer.octets@, rrs_end(buffer.octets@, buffer.position as int, (nscount - it__.index@) as nat), arcount as nat)"),
-                  ("additional", "arcount", "rrs_end(buffer.octets@, buffer.position as int, (arcount - it__.index@) as nat)")))}}
+                msg_end(buffer.octets@) == {m},
+                {x}"""}
+              for k, (v, c, m, x) in enumerate((
+                  ("questions", "qdcount", "then_rrs(buffer.octets@, then_rrs(buffer.octets@, then_rrs(buffer.octets@, questions_end(buffer.octets@, buffer.position as int, (qdcount - it__.index@) as nat), ancount as nat), nscount as nat), arcount as nat)",
+                   "buffer.position == q_off(buffer.octets@, it__.index@ as nat), questions_are(questions@, buffer.octets@), // [C03,C04:every_question_and_record_is_the_one_at_its_place_in_its_section]"),
+                  ("answers", "ancount", "then_rrs(buffer.octets@, then_rrs(buffer.octets@, rrs_end(buffer.octets@, buffer.position as int, (ancount - it__.index@) as nat), nscount as nat), arcount as nat)",
+                   "questions@.len() == qdcount, questions_are(questions@, buffer.octets@), buffer.position == rr_off(buffer.octets@, q_off(buffer.octets@, qdcount as nat), it__.index@ as nat), rrs_are(answers@, buffer.octets@, q_off(buffer.octets@, qdcount as nat)), // [C03,C04:every_question_and_record_is_the_one_at_its_place_in_its_section]"),
+                  ("authority", "nscount", "then_rrs(buffer.octets@, rrs_end(buffer.octets@, buffer.position as int, (nscount - it__.index@) as nat), arcount as nat)",
+                   "questions@.len() == qdcount, answers@.len() == ancount, questions_are(questions@, buffer.octets@), rrs_are(answers@, buffer.octets@, q_off(buffer.octets@, qdcount as nat)), buffer.position == rr_off(buffer.octets@, rr_off(buffer.octets@, q_off(buffer.octets@, qdcount as nat), ancount as nat), it__.index@ as nat), rrs_are(authority@, buffer.octets@, rr_off(buffer.octets@, q_off(buffer.octets@, qdcount as nat), ancount as nat)), // [C03,C04:every_question_and_record_is_the_one_at_its_place_in_its_section]"),
+                  ("additional", "arcount", "rrs_end(buffer.octets@, buffer.position as int, (arcount - it__.index@) as nat)",
+                   "questions@.len() == qdcount, answers@.len() == ancount, authority@.len() == nscount, questions_are(questions@, buffer.octets@), rrs_are(answers@, buffer.octets@, q_off(buffer.octets@, qdcount as nat)), rrs_are(authority@, buffer.octets@, rr_off(buffer.octets@, q_off(buffer.octets@, qdcount as nat), ancount as nat)), buffer.position == rr_off(buffer.octets@, rr_off(buffer.octets@, rr_off(buffer.octets@, q_off(buffer.octets@, qdcount as nat), ancount as nat), nscount as nat), it__.index@ as nat), rrs_are(additional@, buffer.octets@, rr_off(buffer.octets@, rr_off(buffer.octets@, q_off(buffer.octets@, qdcount as nat), ancount as nat), nscount as nat)), // [C03,C04:every_question_and_record_is_the_one_at_its_place_in_its_section]")))}}
 SPECS["Message::from_octets"] = {"props": ["C03"], "contract": """    requires octets@.len() <= 0xffff,
     ensures
         r is Ok ==> octets@.len() >= 12 && msg_counts_ok(r->Ok_0, octets@), // [C03:section_lengths_equal_header_counts]
         r is Ok ==> r->Ok_0.header == header_unpack(be16(octets@[0], octets@[1]), octets@[2], octets@[3]), // [C03,C04:header_flags_read_as_rfc1035]
         r is Err && octets@.len() >= 2 ==> err_id(r->Err_0) == Some(be16(octets@[0], octets@[1])), // [C03:error_carries_id]
         r is Err && octets@.len() < 2 ==> err_id(r->Err_0) is None, // [C03:no_id_only_below_two_bytes]
-        r is Ok <==> msg_end(octets@) is Some, // [C03:accepts_exactly_the_well_formed_messages]"""}
+        r is Ok <==> msg_end(octets@) is Some, // [C03:accepts_exactly_the_well_formed_messages]
+        r is Ok ==> msg_is(r->Ok_0, octets@), // [C03,C04:every_question_and_record_is_the_one_at_its_place_in_its_section]"""}
 
 SPEC_RS = """
 impl<'a> ConsumableBuffer<'a> {
@@ -341,6 +348,20 @@ pub open spec fn msg_end(b: Seq<u8>) -> Option<int> {
         then_rrs(b, then_rrs(b, then_rrs(b, questions_end(b, 12, be16(b[4], b[5]) as nat), be16(b[6], b[7]) as nat), be16(b[8], b[9]) as nat), be16(b[10], b[11]) as nat)
     }
 }
+// where the i-th question / the i-th record of a section starting at s begins, and what a decoded message is against its octets:
+// every question and every record of every section is the one an independent reading finds at its place, in order
+pub open spec fn q_off(b: Seq<u8>, i: nat) -> int decreases i { if i == 0 { 12 } else { question_at(b, q_off(b, (i - 1) as nat))->Some_0 } }
+pub open spec fn q_from(b: Seq<u8>, s: int, i: nat) -> int decreases i { if i == 0 { s } else { question_at(b, q_from(b, s, (i - 1) as nat))->Some_0 } }
+pub open spec fn rr_off(b: Seq<u8>, s: int, i: nat) -> int decreases i { if i == 0 { s } else { rr_at(b, rr_off(b, s, (i - 1) as nat))->Some_0 } }
+pub open spec fn rr_is(rr: ResourceRecord, b: Seq<u8>, p: int) -> bool { rr_header_is(rr, b, p) && rr_rdata_is(rr, b, p) }
+pub open spec fn questions_are(qs: Seq<Question>, b: Seq<u8>) -> bool { forall|i: int| 0 <= i < qs.len() ==> question_is(#[trigger] qs[i], b, q_off(b, i as nat)) }
+pub open spec fn rrs_are(rrs: Seq<ResourceRecord>, b: Seq<u8>, s: int) -> bool { forall|i: int| 0 <= i < rrs.len() ==> rr_is(#[trigger] rrs[i], b, rr_off(b, s, i as nat)) }
+pub open spec fn msg_is(m: Message, b: Seq<u8>) -> bool {
+    let a0 = q_off(b, m.questions@.len());
+    let n0 = rr_off(b, a0, m.answers@.len());
+    let x0 = rr_off(b, n0, m.authority@.len());
+    questions_are(m.questions@, b) && rrs_are(m.answers@, b, a0) && rrs_are(m.authority@, b, n0) && rrs_are(m.additional@, b, x0)
+}
 pub open spec fn msg_counts_ok(m: Message, o: Seq<u8>) -> bool {
     &&& o.len() >= 12
     &&& m.questions@.len() == be16(o[4], o[5])
@@ -384,6 +405,8 @@ def build(G):
 
 
 CANARIES = [
+    {"name": "authority_and_additional_sections_read_in_the_wrong_order", "file": DESER, "old": "        for _ in 0..nscount {\n            authority.push(ResourceRecord::deserialise(header.id, buffer)?);\n        }\n        for _ in 0..arcount {\n            additional.push(ResourceRecord::deserialise(header.id, buffer)?);\n        }", "new": "        for _ in 0..arcount {\n            additional.push(ResourceRecord::deserialise(header.id, buffer)?);\n        }\n        for _ in 0..nscount {\n            authority.push(ResourceRecord::deserialise(header.id, buffer)?);\n        }"},
+    {"name": "records_pushed_to_the_front", "file": DESER, "old": "            answers.push(ResourceRecord::deserialise(header.id, buffer)?);", "new": "            answers.insert(0, ResourceRecord::deserialise(header.id, buffer)?);"},
     {"name": "soa_refresh_and_retry_swapped", "file": DESER, "old": "                refresh: buffer.next_u32().ok_or(Error::ResourceRecordTooShort(id))?,\n                retry: buffer.next_u32().ok_or(Error::ResourceRecordTooShort(id))?,", "new": "                retry: buffer.next_u32().ok_or(Error::ResourceRecordTooShort(id))?,\n                refresh: buffer.next_u32().ok_or(Error::ResourceRecordTooShort(id))?,"},
     {"name": "srv_weight_and_port_swapped", "file": DESER, "old": "                weight: buffer.next_u16().ok_or(Error::ResourceRecordTooShort(id))?,\n                port: buffer.next_u16().ok_or(Error::ResourceRecordTooShort(id))?,", "new": "                port: buffer.next_u16().ok_or(Error::ResourceRecordTooShort(id))?,\n                weight: buffer.next_u16().ok_or(Error::ResourceRecordTooShort(id))?,"},
     {"name": "minfo_mailboxes_swapped", "file": DESER, "old": "                rmailbx: DomainName::deserialise(id, buffer)?,\n                emailbx: DomainName::deserialise(id, buffer)?,", "new": "                emailbx: DomainName::deserialise(id, buffer)?,\n                rmailbx: DomainName::deserialise(id, buffer)?,"},
